@@ -185,9 +185,48 @@ m("m14e", "C14", "sqllineage/core/parser/sqlfluff/extractors/create_insert.py",
   "                    write_obj = SqlFluffTable.of(segment)\n",
   "                    write_obj = _TABLE_CACHE.setdefault(segment.raw, SqlFluffTable.of(segment))\n",
   "target tables cached by their raw text across statements and runs (schema frozen at first sight)",
-  more=[("sqllineage/core/parser/sqlfluff/extractors/create_insert.py", "class CreateInsertExtractor(BaseExtractor, SourceHandlerMixin):\n",
-         "_TABLE_CACHE: dict = {}\n\n\nclass CreateInsertExtractor(BaseExtractor, SourceHandlerMixin):\n")])
+  more=[("sqllineage/core/parser/sqlfluff/extractors/create_insert.py", "class CreateInsertExtractor(BaseExtractor):\n",
+         "_TABLE_CACHE: dict = {}\n\n\nclass CreateInsertExtractor(BaseExtractor):\n")])
 m("m14f", "C14", "sqllineage/core/models.py",
   "            self.schema = Schema(schema_name)\n",
   "            self.schema = Schema(schema_name) if schema_name != SQLLineageConfig.DEFAULT_SCHEMA else Schema()\n",
   "equivalent control: a name qualified with the default schema goes through the default path", expect="miss")
+
+# ---------------------------------------------------------------- C17
+m("m17a", "C17", "sqllineage/drawing.py",
+  "                    if \"..\" in path_info:\n                        # Do not allow going back to parent path of static folder\n                        return self.handle_404(start_response)\n",
+  "",
+  "GET: '..' test removed")
+m("m17b", "C17", "sqllineage/drawing.py",
+  "                            if os.path.commonpath([root, os.path.abspath(target)]) != root:\n",
+  "                            if not os.path.abspath(target).startswith(root):\n",
+  "POST: string-prefix test restored on normalised paths (sibling-with-common-prefix passes)")
+m("m17c", "C17", "sqllineage/drawing.py",
+  "                    for param in [\"d\", \"f\"]:\n                        if param in payload:\n",
+  "                    for param in [\"f\"]:\n                        if param in payload:\n",
+  "POST: only f is checked, not d")
+m("m17d", "C17", "sqllineage/drawing.py",
+  "                            if param == \"f\" and path_info == \"/directory\":\n                                # what gets listed is the directory holding the file\n                                target = target.parent\n",
+  "",
+  "/directory: the listed directory (parent of f) is not what is checked")
+m("m17e", "C17", "sqllineage/drawing.py",
+  "                    root = os.path.abspath(self.root_path)\n",
+  "                    root = os.path.abspath(SQLLineageConfig.DIRECTORY)\n",
+  "containment tested against the packaged data directory instead of root_path")
+m("m17f", "C17", "sqllineage/drawing.py",
+  "                    root = os.path.abspath(self.root_path)\n",
+  "                    root = os.path.abspath(self.root_path)\n                    payload = {k: (os.path.expanduser(v) if isinstance(v, str) else v) for k, v in payload.items()}\n",
+  "control: '~' expansion before the check (checked value is the value used)", expect="miss")
+m("m17g", "C17", "sqllineage/drawing.py",
+  "                            if os.path.commonpath([root, os.path.abspath(target)]) != root:\n",
+  "                            if os.path.commonpath([root, str(Path(target).absolute())]) != root:\n",
+  "POST: '..' no longer normalised before the component-wise comparison")
+m("m17h", "C17", "sqllineage/drawing.py",
+  "        except (SQLLineageException, RuntimeError) as e:\n            return self.handle_400(start_response, str(e))\n",
+  "        except (SQLLineageException, RuntimeError) as e:\n            return self.handle_400(start_response, str(e))\n        except OSError as e:\n            return self.handle_400(start_response, f\"{e}: {os.listdir(os.path.dirname(os.path.abspath(e.filename or '.')))}\")\n",
+  "helpful error message lists the directory of the failing path on I/O errors")
+m("m17i", "C17", "sqllineage/utils/helpers.py",
+  "            with open(args.f) as f:\n                sql = f.read()\n",
+  "            with open(os.path.expanduser(os.path.expandvars(args.f))) as f:\n                sql = f.read()\n",
+  "control-ish: variable expansion at read time but not at check time (no $ in generated paths)", expect="miss",
+  more=[("sqllineage/utils/helpers.py", "import logging\n", "import logging\nimport os\n")])
